@@ -643,6 +643,12 @@ class Engine:
                 return self.and_const(st, a, bs.as_long(), n)
             if z3.is_int_value(as_) and as_.as_long() >= 0:
                 return self.and_const(st, b, as_.as_long(), n)
+            for x_, m_ in ((a, bs), (b, as_)):
+                # x & -2^k (i.e. x & ~(2^k - 1)) for x >= 0: x rounded down to a multiple of 2^k
+                if z3.is_int_value(m_) and m_.as_long() < 0 and ((-m_.as_long()) & (-m_.as_long() - 1)) == 0:
+                    self.ob("encoding.bitop_nonneg", st, x_ >= 0, n)
+                    q_, r_ = self.divmod_(st, x_, z3.IntVal(-m_.as_long()), n)
+                    return x_ - r_
             raise Unsupported(f"& with two symbolic operands@{n.lineno}")
         if op == "BitOr":
             # x | m == x + m - (x & m)
@@ -756,6 +762,8 @@ class Engine:
             return IntV(-self.as_int(v, st, n))
         if isinstance(n.op, ast.Not):
             return BoolV(z3.Not(self.truthy(v)))
+        if isinstance(n.op, ast.Invert) and isinstance(v, IntV):
+            return IntV(-v.e - 1)  # ~x == -x - 1 on Python integers
         raise Unsupported(f"unaryop {type(n.op).__name__}@{n.lineno}")
 
     def ev_guarded(self, node, st, guard):
@@ -832,6 +840,11 @@ class Engine:
 
     def ev_IfExp(self, n, st):
         c = self.truthy(self.ev(n.test, st))
+        cs_ = z3.simplify(c)
+        if z3.is_true(cs_):
+            return self.ev(n.body, st)
+        if z3.is_false(cs_):
+            return self.ev(n.orelse, st)
         a = self.ev_guarded(n.body, st, c)
         b = self.ev_guarded(n.orelse, st, z3.Not(c))
         return self.merge(c, a, b, n)
@@ -935,7 +948,7 @@ class Engine:
             kw = next(k for k in n.keywords if k.arg is None)
             ftag = f.tag if isinstance(f, OpaqueV) else f"{describe(f.recv)}.{f.name}"
             return OpaqueV(f"{ftag}(**{describe(self.ev(kw.value, st))})")
-        if any(k.arg is None for k in n.keywords) and not (isinstance(f, BoundMethod) and isinstance(f.recv, ObjV)):
+        if any(k.arg is None for k in n.keywords) and not (isinstance(f, BoundMethod) and isinstance(f.recv, ObjV)) and not isinstance(f, FuncRef):
             raise Unsupported(f"**kwargs call on something that is not a contracted method@{n.lineno}")
         args = [self.ev(a, st) for a in n.args]
         kwargs = {(k.arg if k.arg is not None else "__starstar__"): self.ev(k.value, st) for k in n.keywords}  # f(**d) reaches the callee contract as __starstar__=d
@@ -974,6 +987,10 @@ class Engine:
                 return OpaqueV(recv.tag + "()")
             if isinstance(recv, BytesV) and f.name == "tobytes" and not args and not kwargs:
                 return recv
+            if isinstance(recv, BytesV) and f.name == "ljust" and len(args) == 2 and isinstance(args[1], BytesV) and not kwargs:
+                w = self.as_int(args[0], st, n)
+                fill = args[1].at(z3.IntVal(0))
+                return BytesV(zmax(recv.n, w), lambda i, recv=recv, fill=fill: z3.If(i < recv.n, recv.at(i), fill), tuple(recv.bounds) + (recv.n,))
             if isinstance(recv, StrV) and f.name == "encode" and not args and not kwargs:
                 return const_bytes(recv.s.encode())
             if isinstance(recv, BytesV) and f.name == "decode":
